@@ -1103,7 +1103,7 @@ class Machine(object):
                 continue
             except TimeBound:
                 ctx.violate("time/%s/not-bounded-by-input-size" % t.name,
-                            "%s was still running after %.0f s on a damaged input of %d bytes (%s), without any password-based decryption" % (
+                            "%s had used %.0f s of CPU time on a damaged input of %d bytes (%s), without any password-based decryption" % (
                                 t.name, self.TIME_BOUND, len(b), label), observed="> %.0f s" % self.TIME_BOUND, expected="milliseconds")
             except Exception as e:
                 d, exc = None, e
@@ -1268,7 +1268,7 @@ class Machine(object):
             if len(hist) >= 2:
                 ctx.probe("reuse_after_earlier_decode")
 
-    TIME_BOUND = 10.0        # seconds for one decode of at most a few kilobytes without password-based decryption
+    TIME_BOUND = 10.0        # seconds of CPU time for one decode of at most a few kilobytes without password-based decryption
 
     def _decode(self, t, item, b, pass_run):
         if not pass_run:
@@ -1278,17 +1278,14 @@ class Machine(object):
 
             def ontime(sig, frm):
                 raise TimeBound()
-            import time
-            t0 = time.time()
-            old = signal.signal(signal.SIGALRM, ontime)
-            left = signal.setitimer(signal.ITIMER_REAL, self.TIME_BOUND, 0.5)
+            # CPU time of this process, not wall time: a loaded machine must not turn into a verdict
+            old = signal.signal(signal.SIGVTALRM, ontime)
+            signal.setitimer(signal.ITIMER_VIRTUAL, self.TIME_BOUND, 0.5)
             try:
                 return t.decode(self, item, b)
             finally:
-                signal.setitimer(signal.ITIMER_REAL, 0)
-                signal.signal(signal.SIGALRM, old)
-                if left[0] > 0:
-                    signal.setitimer(signal.ITIMER_REAL, max(1.0, left[0] - (time.time() - t0)))     # the engine's wall cap goes on
+                signal.setitimer(signal.ITIMER_VIRTUAL, 0)
+                signal.signal(signal.SIGVTALRM, old)
         # passphrase runs: a flipped bit in a stored cost parameter legitimately makes the KDF expensive; a watchdog
         # turns that into "not judged"
         import signal
